@@ -19,14 +19,18 @@
 #include <pthread.h>
 #include <sched.h>
 #include <unistd.h>
+#include <setjmp.h>
+#include <sys/stat.h>
 #include "turbojpeg.h"
+#include "jpeglib.h"
+#include "jerror.h"
 
 #define MAXT 32
 #define MAXOPS 512
 #define NH 4
 #define NS 4
 
-typedef struct { char name[12]; int a[12]; int na; } op_t;
+typedef struct { char name[12]; int a[14]; int na; } op_t;
 
 typedef struct {
   int tid, nops;
@@ -47,6 +51,44 @@ typedef struct {
 static thr_t T[MAXT];
 static int nthreads;
 static pthread_barrier_t bar;
+static int done_count;
+
+/* ---- write-watch: static-storage objects of the LIBRARY (addresses from nm of this executable, given by the check)
+   must keep their load-time bytes while library code runs */
+#define MAXW 256
+static struct { char name[64]; unsigned char *addr; size_t size; unsigned char *snap; int reported; } W[MAXW];
+static int nwatch;
+
+static void watch_load(void)
+{
+  const char *fn = getenv("C15_WATCH");
+  FILE *f = fn ? fopen(fn, "r") : NULL;
+  char name[64]; unsigned long long addr; unsigned long size;
+  if (!f) return;
+  while (nwatch < MAXW && fscanf(f, "%63s %llx %lu", name, &addr, &size) == 3) {
+    if (!size || size > (1u << 24)) continue;
+    snprintf(W[nwatch].name, sizeof(W[nwatch].name), "%s", name);
+    W[nwatch].addr = (unsigned char *)(uintptr_t)addr; W[nwatch].size = size;
+    W[nwatch].snap = (unsigned char *)malloc(size);
+    memcpy(W[nwatch].snap, W[nwatch].addr, size);
+    nwatch++;
+  }
+  fclose(f);
+}
+
+static int watch_check(const char *when)
+{
+  int bad = 0;
+  for (int i = 0; i < nwatch; i++) {
+    if (W[i].reported || !memcmp(W[i].snap, W[i].addr, W[i].size)) continue;
+    size_t off = 0;
+    while (off < W[i].size && W[i].snap[off] == W[i].addr[off]) off++;
+    printf("WATCH %s size=%zu first-changed-byte=%zu when=%s\n", W[i].name, W[i].size, off, when);
+    W[i].reported = 1; bad = 1;
+  }
+  return bad;
+}
+
 
 static uint64_t fnv(const void *p, size_t n)
 {
@@ -100,6 +142,100 @@ static void *mkimage(int prec, int w, int h, int ps, uint32_t seed)
   }
 }
 
+
+/* ---- raw libjpeg API (the same objects are inside libturbojpeg.a) */
+struct lj_err { struct jpeg_error_mgr pub; jmp_buf jb; char msg[JMSG_LENGTH_MAX]; };
+static void lj_error_exit(j_common_ptr cinfo)
+{
+  struct lj_err *e = (struct lj_err *)cinfo->err;
+  (*cinfo->err->format_message) (cinfo, e->msg);
+  longjmp(e->jb, 1);
+}
+static void lj_output_message(j_common_ptr cinfo) { (void)cinfo; }
+
+static void free_slot(thr_t *t, int s);
+
+static void lj_decompress(thr_t *t, int k, int S, int mode, int colors, int dither)
+{
+  struct jpeg_decompress_struct d;
+  struct lj_err e;
+  unsigned char *volatile out = NULL;
+  if (!t->slot[S]) { logf_(t, "%d ljdec skip", k); return; }
+  d.err = jpeg_std_error(&e.pub);
+  e.pub.error_exit = lj_error_exit; e.pub.output_message = lj_output_message; e.msg[0] = 0;
+  if (setjmp(e.jb)) {
+    logf_(t, "%d ljdec -> error \"%s\"", k, e.msg);
+    jpeg_destroy_decompress(&d);
+    free((void *)out);
+    return;
+  }
+  jpeg_create_decompress(&d);
+  jpeg_mem_src(&d, t->slot[S], (unsigned long)t->slotsize[S]);
+  jpeg_read_header(&d, TRUE);
+  if (d.data_precision != 8) { logf_(t, "%d ljdec n/a", k); jpeg_destroy_decompress(&d); return; }
+  if (d.jpeg_color_space == JCS_CMYK || d.jpeg_color_space == JCS_YCCK) { logf_(t, "%d ljdec cmyk n/a", k); jpeg_destroy_decompress(&d); return; }
+  d.quantize_colors = TRUE;
+  d.desired_number_of_colors = 2 + colors % 255;
+  d.two_pass_quantize = (mode & 1) ? TRUE : FALSE;
+  d.dither_mode = dither % 3 == 0 ? JDITHER_NONE : dither % 3 == 1 ? JDITHER_ORDERED : JDITHER_FS;
+  if (mode & 2) d.out_color_space = JCS_GRAYSCALE;
+  jpeg_start_decompress(&d);
+  size_t row = (size_t)d.output_width * d.output_components;
+  out = (unsigned char *)calloc(row * d.output_height + 1, 1);
+  while (d.output_scanline < d.output_height) {
+    JSAMPROW r = (JSAMPROW)out + row * d.output_scanline;
+    jpeg_read_scanlines(&d, &r, 1);
+  }
+  uint64_t hc = 0;
+  if (d.colormap)
+    for (int c = 0; c < d.out_color_components; c++) hc ^= fnv(d.colormap[c], d.actual_number_of_colors) * (c + 1);
+  logf_(t, "%d ljdec %ux%u mode%d colors%d/%d dither%d -> h=%016llx cmap=%016llx", k, d.output_width, d.output_height, mode & 3,
+        d.actual_number_of_colors, d.desired_number_of_colors, dither % 3, (unsigned long long)fnv((void *)out, row * d.output_height),
+        (unsigned long long)hc);
+  jpeg_finish_decompress(&d);
+  jpeg_destroy_decompress(&d);
+  free((void *)out);
+}
+
+static void lj_compress(thr_t *t, int k, int S, int w, int h, int q, int opt, uint32_t seed)
+{
+  struct jpeg_compress_struct c;
+  struct lj_err e;
+  unsigned char *volatile img = NULL;
+  unsigned char *buf = NULL; unsigned long len = 0;
+  c.err = jpeg_std_error(&e.pub);
+  e.pub.error_exit = lj_error_exit; e.pub.output_message = lj_output_message; e.msg[0] = 0;
+  if (setjmp(e.jb)) {
+    logf_(t, "%d ljcomp -> error \"%s\"", k, e.msg);
+    jpeg_destroy_compress(&c);
+    free((void *)img); free(buf);
+    return;
+  }
+  jpeg_create_compress(&c);
+  jpeg_mem_dest(&c, &buf, &len);
+  c.image_width = w; c.image_height = h; c.input_components = 3; c.in_color_space = JCS_RGB;
+  jpeg_set_defaults(&c);
+  jpeg_set_quality(&c, 1 + q % 100, TRUE);
+  c.optimize_coding = (opt & 1) ? TRUE : FALSE;
+  if (opt & 2) jpeg_simple_progression(&c);
+  if (opt & 4) c.arith_code = TRUE;
+  if (opt & 8) { c.comp_info[0].h_samp_factor = 1; c.comp_info[0].v_samp_factor = 1; }
+  if (opt & 16) c.dct_method = JDCT_FLOAT;
+  if (opt & 32) c.restart_interval = 3;
+  img = (unsigned char *)mkimage(8, w, h, 3, seed);
+  jpeg_start_compress(&c, TRUE);
+  while (c.next_scanline < c.image_height) {
+    JSAMPROW r = (JSAMPROW)img + (size_t)c.next_scanline * w * 3;
+    jpeg_write_scanlines(&c, &r, 1);
+  }
+  jpeg_finish_compress(&c);
+  jpeg_destroy_compress(&c);
+  free((void *)img);
+  free_slot(t, S);
+  t->slot[S] = buf; t->slotsize[S] = len;
+  logf_(t, "%d ljcomp %dx%d q%d opt%x -> size=%lu h=%016llx", k, w, h, 1 + q % 100, opt, len, (unsigned long long)fnv(buf, len));
+}
+
 static void errinfo(thr_t *t, tjhandle h, const char *tag)
 {
   logf_(t, "  %s err=\"%s\" code=%d", tag, tj3GetErrorStr(h), tj3GetErrorCode(h));
@@ -125,8 +261,9 @@ static void run_op(thr_t *t, int k)
   int *a = o->a;
   const char *n = o->name;
   if (strcmp(n, "ownerr") && strcmp(n, "geterr") && strcmp(n, "gerr") && strcmp(n, "helper") && strcmp(n, "yield") &&
-      strcmp(n, "legacy"))
+      strcmp(n, "legacy") && strcmp(n, "icc") && strcmp(n, "planes") && strcmp(n, "ljdec") && strcmp(n, "ljcomp"))
     t->mark[a[0] % NH][0] = 0;        /* any other call on instance H may replace or clear its error state */
+  if (!strcmp(n, "icc") || !strcmp(n, "planes")) t->mark[0][0] = t->mark[1][0] = 0;
   if (!strcmp(n, "init")) {           /* init H type */
     int H = a[0] % NH;
     if (t->h[H]) tj3Destroy(t->h[H]);
@@ -164,6 +301,7 @@ static void run_op(thr_t *t, int k)
     tj3Set(hd, TJPARAM_FASTDCT, (fl & 16) != 0);
     tj3Set(hd, TJPARAM_RESTARTROWS, (fl & 32) ? 1 : 0);
     tj3Set(hd, TJPARAM_NOREALLOC, 0);
+    tj3Set(hd, TJPARAM_MAXMEMORY, a[10] > 0 ? a[10] : 0);
     void *img = mkimage(prec, w, h, tjPixelSize[pf], (uint32_t)a[9]);
     free_slot(t, S);
     int rc;
@@ -178,6 +316,8 @@ static void run_op(thr_t *t, int k)
     int H = a[0] % NH, S = a[1] % NS, pf = a[2], fl = a[4];
     tjhandle hd = t->h[H];
     if (!hd || t->htype[H] == TJINIT_COMPRESS || !t->slot[S]) { logf_(t, "%d decomp skip", k); return; }
+    tj3Set(hd, TJPARAM_SCANLIMIT, a[5] > 0 ? a[5] : 0);      /* extra args: scan limit, memory limit (MB) */
+    tj3Set(hd, TJPARAM_MAXMEMORY, a[6] > 0 ? a[6] : 0);
     int rc = tj3DecompressHeader(hd, t->slot[S], t->slotsize[S]);
     if (rc < 0) { logf_(t, "%d decomp header -> %d", k, rc); errinfo(t, hd, "hdr"); return; }
     int w = tj3Get(hd, TJPARAM_JPEGWIDTH), h = tj3Get(hd, TJPARAM_JPEGHEIGHT), prec = tj3Get(hd, TJPARAM_PRECISION);
@@ -195,8 +335,8 @@ static void run_op(thr_t *t, int k)
     if (prec <= 8) rc = tj3Decompress8(hd, t->slot[S], t->slotsize[S], (unsigned char *)out, 0, pf);
     else if (prec <= 12) rc = tj3Decompress12(hd, t->slot[S], t->slotsize[S], (short *)out, 0, pf);
     else rc = tj3Decompress16(hd, t->slot[S], t->slotsize[S], (unsigned short *)out, 0, pf);
-    logf_(t, "%d decomp %dx%d p%d pf%d sf%d/%d fl%x -> %d h=%016llx", k, w, h, prec, pf, sf.num, sf.denom, fl, rc,
-          (unsigned long long)fnv(out, nsamp * (prec <= 8 ? 1 : 2)));
+    logf_(t, "%d decomp %dx%d p%d pf%d sf%d/%d fl%x sl%d mm%d -> %d h=%016llx", k, w, h, prec, pf, sf.num, sf.denom, fl,
+          a[5] > 0 ? a[5] : 0, a[6] > 0 ? a[6] : 0, rc, (unsigned long long)fnv(out, nsamp * (prec <= 8 ? 1 : 2)));
     if (rc < 0) errinfo(t, hd, "decomp");
     free(out);
     sf.num = sf.denom = 1; tj3SetScalingFactor(hd, sf);
@@ -208,6 +348,9 @@ static void run_op(thr_t *t, int k)
     xf.op = a[3]; xf.options = a[4];
     free_slot(t, D);
     tj3Set(hd, TJPARAM_NOREALLOC, 0);
+    tj3Set(hd, TJPARAM_SCANLIMIT, a[5] > 0 ? a[5] : 0);
+    tj3Set(hd, TJPARAM_MAXMEMORY, a[6] > 0 ? a[6] : 0);
+    logf_(t, "  xformbufsize %zu", tj3TransformBufSize(hd, &xf));
     int rc = tj3Transform(hd, t->slot[S], t->slotsize[S], 1, &t->slot[D], &t->slotsize[D], &xf);
     logf_(t, "%d xform op%d opt%x -> %d size=%zu h=%016llx", k, a[3], a[4], rc, rc == 0 ? t->slotsize[D] : 0,
           rc == 0 ? (unsigned long long)fnv(t->slot[D], t->slotsize[D]) : 0ULL);
@@ -321,6 +464,146 @@ static void run_op(thr_t *t, int k)
     const char *s1 = tj3GetErrorStr(hd);
     logf_(t, "%d ownerr %d \"%s\"", k, H, s1);
     own(t, k, "cross-instance: error string retrieved for an instance after another instance failed", s1, t->mark[H]);
+
+  } else if (!strcmp(n, "icc")) {     /* icc n seed w h : ICC profile set on the compressor, read back by the decompressor */
+    tjhandle hc = t->h[0], hd = t->h[1];
+    if (!hc || !hd || t->htype[0] != TJINIT_COMPRESS || t->htype[1] != TJINIT_DECOMPRESS) { logf_(t, "%d icc skip", k); return; }
+    size_t nb = 1 + (size_t)(a[0] % 70000);
+    unsigned char *prof = (unsigned char *)malloc(nb);
+    uint32_t sd = (uint32_t)a[1];
+    for (size_t i = 0; i < nb; i++) prof[i] = (unsigned char)lcg(&sd);
+    int rc = tj3SetICCProfile(hc, prof, nb);
+    tj3Set(hc, TJPARAM_PRECISION, 8); tj3Set(hc, TJPARAM_LOSSLESS, 0); tj3Set(hc, TJPARAM_SUBSAMP, TJSAMP_420);
+    tj3Set(hc, TJPARAM_QUALITY, 70); tj3Set(hc, TJPARAM_NOREALLOC, 0); tj3Set(hc, TJPARAM_MAXMEMORY, 0);
+    unsigned char *img = (unsigned char *)mkimage(8, a[2], a[3], 3, sd);
+    unsigned char *jb = NULL; size_t js = 0;
+    int rc2 = tj3Compress8(hc, img, a[2], 0, a[3], TJPF_RGB, &jb, &js);
+    free(img);
+    logf_(t, "%d icc set %zu -> %d comp -> %d size=%zu", k, nb, rc, rc2, rc2 == 0 ? js : 0);
+    if (rc2 == 0) {
+      tj3Set(hd, TJPARAM_SAVEMARKERS, 2); tj3Set(hd, TJPARAM_SCANLIMIT, 0); tj3Set(hd, TJPARAM_MAXMEMORY, 0);
+      int rc3 = tj3DecompressHeader(hd, jb, js);
+      unsigned char *got = NULL; size_t gs = 0;
+      int rc4 = rc3 == 0 ? tj3GetICCProfile(hd, &got, &gs) : -1;
+      int same = rc4 == 0 && gs == nb && !memcmp(got, prof, nb);
+      logf_(t, "  icc get -> %d %d size=%zu same=%d", rc3, rc4, gs, same);
+      if (rc4 < 0) errinfo(t, hd, "icc");
+      if (got) tj3Free(got);
+    } else errinfo(t, hc, "icc");
+    tj3SetICCProfile(hc, NULL, 0);
+    if (jb) tj3Free(jb);
+    free(prof);
+  } else if (!strcmp(n, "crop")) {    /* crop H slot pf xi yi wi hi sfidx : partial decompression (8-bit lossy) */
+    int H = a[0] % NH, S = a[1] % NS, pf = a[2];
+    tjhandle hd = t->h[H];
+    if (!hd || t->htype[H] == TJINIT_COMPRESS || !t->slot[S]) { logf_(t, "%d crop skip", k); return; }
+    tj3Set(hd, TJPARAM_SCANLIMIT, 0); tj3Set(hd, TJPARAM_MAXMEMORY, 0);
+    int rc = tj3DecompressHeader(hd, t->slot[S], t->slotsize[S]);
+    if (rc < 0) { logf_(t, "%d crop header -> %d", k, rc); errinfo(t, hd, "hdr"); return; }
+    int w = tj3Get(hd, TJPARAM_JPEGWIDTH), h = tj3Get(hd, TJPARAM_JPEGHEIGHT), ss = tj3Get(hd, TJPARAM_SUBSAMP);
+    if (tj3Get(hd, TJPARAM_PRECISION) != 8 || tj3Get(hd, TJPARAM_LOSSLESS) || ss < 0 || ss >= TJ_NUMSAMP) { logf_(t, "%d crop n/a", k); return; }
+    int nsf = 0; tjscalingfactor *sfs = tj3GetScalingFactors(&nsf);
+    tjscalingfactor sf = sfs[a[7] % nsf];
+    tj3SetScalingFactor(hd, sf);
+    int sw = TJSCALED(w, sf), sh = TJSCALED(h, sf);
+    int mw = TJSCALED(tjMCUWidth[ss], sf);
+    tjregion r;
+    r.x = mw > 0 ? (a[3] % (sw / mw + 1)) * mw : 0;
+    r.y = a[4] % (sh > 0 ? sh : 1);
+    if (r.x >= sw) r.x = 0;
+    r.w = 1 + a[5] % (sw - r.x); r.h = 1 + a[6] % (sh - r.y);
+    rc = tj3SetCroppingRegion(hd, r);
+    if (rc < 0) { logf_(t, "%d crop region %d,%d %dx%d of %dx%d -> %d", k, r.x, r.y, r.w, r.h, sw, sh, rc); errinfo(t, hd, "crop"); }
+    else {
+      size_t nb = (size_t)r.w * r.h * tjPixelSize[pf];
+      unsigned char *out = (unsigned char *)calloc(nb ? nb : 1, 1);
+      rc = tj3Decompress8(hd, t->slot[S], t->slotsize[S], out, 0, pf);
+      logf_(t, "%d crop %d,%d %dx%d of %dx%d pf%d -> %d h=%016llx", k, r.x, r.y, r.w, r.h, sw, sh, pf, rc, (unsigned long long)fnv(out, nb));
+      if (rc < 0) errinfo(t, hd, "crop");
+      free(out);
+    }
+    r.x = r.y = r.w = r.h = 0; tj3SetCroppingRegion(hd, r);
+    sf.num = sf.denom = 1; tj3SetScalingFactor(hd, sf);
+  } else if (!strcmp(n, "planes")) {  /* planes w h pf ss seed slot : EncodeYUVPlanes8 + CompressFromYUVPlanes8 + DecompressToYUVPlanes8 + DecodeYUVPlanes8 */
+    tjhandle hc = t->h[0], hd = t->h[1];
+    int w = a[0], h = a[1], pf = a[2], ss = a[3], S = a[5] % NS;
+    if (!hc || !hd || t->htype[0] != TJINIT_COMPRESS || t->htype[1] != TJINIT_DECOMPRESS) { logf_(t, "%d planes skip", k); return; }
+    tj3Set(hc, TJPARAM_PRECISION, 8); tj3Set(hc, TJPARAM_LOSSLESS, 0); tj3Set(hc, TJPARAM_SUBSAMP, ss);
+    tj3Set(hc, TJPARAM_QUALITY, 85); tj3Set(hc, TJPARAM_NOREALLOC, 0); tj3Set(hc, TJPARAM_MAXMEMORY, 0);
+    unsigned char *img = (unsigned char *)mkimage(8, w, h, tjPixelSize[pf], (uint32_t)a[4]);
+    unsigned char *pl[3] = { NULL, NULL, NULL }; int st[3] = { 0, 0, 0 };
+    int np = ss == TJSAMP_GRAY ? 1 : 3;
+    uint64_t hh = 0;
+    for (int i = 0; i < np; i++) {
+      st[i] = tj3YUVPlaneWidth(i, w, ss) + (a[4] & 7);
+      pl[i] = (unsigned char *)calloc(tj3YUVPlaneSize(i, w, st[i], h, ss) + 1, 1);
+    }
+    int rc = tj3EncodeYUVPlanes8(hc, img, w, 0, h, pf, pl, st);
+    for (int i = 0; i < np; i++) hh ^= fnv(pl[i], tj3YUVPlaneSize(i, w, st[i], h, ss)) * (i + 1);
+    logf_(t, "%d planes enc %dx%d pf%d ss%d -> %d h=%016llx", k, w, h, pf, ss, rc, (unsigned long long)hh);
+    if (rc < 0) errinfo(t, hc, "planes");
+    else {
+      free_slot(t, S);
+      rc = tj3CompressFromYUVPlanes8(hc, (const unsigned char * const *)pl, w, st, h, &t->slot[S], &t->slotsize[S]);
+      logf_(t, "  planes comp -> %d size=%zu h=%016llx", rc, rc == 0 ? t->slotsize[S] : 0, rc == 0 ? (unsigned long long)fnv(t->slot[S], t->slotsize[S]) : 0ULL);
+      if (rc < 0) { errinfo(t, hc, "planes"); free_slot(t, S); }
+      else {
+        for (int i = 0; i < np; i++) memset(pl[i], 0, tj3YUVPlaneSize(i, w, st[i], h, ss));
+        tj3Set(hd, TJPARAM_SCANLIMIT, 0); tj3Set(hd, TJPARAM_MAXMEMORY, 0);
+        rc = tj3DecompressHeader(hd, t->slot[S], t->slotsize[S]);
+        if (rc == 0) rc = tj3DecompressToYUVPlanes8(hd, t->slot[S], t->slotsize[S], pl, st);
+        hh = 0; for (int i = 0; i < np; i++) hh ^= fnv(pl[i], tj3YUVPlaneSize(i, w, st[i], h, ss)) * (i + 1);
+        logf_(t, "  planes dec -> %d h=%016llx", rc, (unsigned long long)hh);
+        if (rc < 0) errinfo(t, hd, "planes");
+        size_t nb = (size_t)w * h * tjPixelSize[pf];
+        unsigned char *rgb = (unsigned char *)calloc(nb ? nb : 1, 1);
+        rc = tj3DecodeYUVPlanes8(hd, (const unsigned char * const *)pl, st, rgb, w, 0, h, pf);
+        logf_(t, "  planes decode -> %d h=%016llx", rc, (unsigned long long)fnv(rgb, nb));
+        if (rc < 0) errinfo(t, hd, "planes");
+        free(rgb);
+      }
+    }
+    for (int i = 0; i < np; i++) free(pl[i]);
+    free(img);
+  } else if (!strcmp(n, "file")) {    /* file H prec w h pf seed bmp : tj3SaveImage + tj3LoadImage round trip in $C15_TMP */
+    int H = a[0] % NH, prec = a[1], w = a[2], h = a[3], pf = a[4];
+    tjhandle hd = t->h[H];
+    const char *dir = getenv("C15_TMP");
+    if (!hd || !dir) { logf_(t, "%d file skip", k); return; }
+    char fn[600];
+    int bmp = a[6] && prec == 8;
+    snprintf(fn, sizeof(fn), "%s/c15_%d_%d_%d.%s", dir, (int)getpid(), t->tid, k, bmp ? "bmp" : "ppm");
+    void *img = mkimage(prec, w, h, tjPixelSize[pf], (uint32_t)a[5]);
+    tj3Set(hd, TJPARAM_PRECISION, prec);
+    int rc;
+    if (prec <= 8) rc = tj3SaveImage8(hd, fn, (unsigned char *)img, w, 0, h, pf);
+    else if (prec <= 12) rc = tj3SaveImage12(hd, fn, (short *)img, w, 0, h, pf);
+    else rc = tj3SaveImage16(hd, fn, (unsigned short *)img, w, 0, h, pf);
+    logf_(t, "%d file save p%d %dx%d pf%d %s -> %d", k, prec, w, h, pf, bmp ? "bmp" : "ppm", rc);
+    if (rc < 0) errinfo(t, hd, "save");
+    else {
+      int lw = 0, lh = 0, lpf = pf;
+      void *ld;
+      if (prec <= 8) ld = tj3LoadImage8(hd, fn, &lw, 1, &lh, &lpf);
+      else if (prec <= 12) ld = tj3LoadImage12(hd, fn, &lw, 1, &lh, &lpf);
+      else ld = tj3LoadImage16(hd, fn, &lw, 1, &lh, &lpf);
+      size_t nb = ld ? (size_t)lw * lh * tjPixelSize[lpf] * (prec <= 8 ? 1 : 2) : 0;
+      logf_(t, "  file load -> %s %dx%d pf%d h=%016llx", ld ? "ok" : "NULL", lw, lh, lpf, (unsigned long long)fnv(ld, nb));
+      if (!ld) errinfo(t, hd, "load");
+      else tj3Free(ld);
+    }
+    /* a failing load: sets the instance and the thread-local error strings (strerror path) */
+    snprintf(fn + strlen(fn), sizeof(fn) - strlen(fn), ".missing");
+    { int lw, lh, lpf = TJPF_UNKNOWN; void *ld = tj3LoadImage8(hd, fn, &lw, 1, &lh, &lpf);
+      logf_(t, "  file missing -> %s", ld ? "ok?" : "NULL"); errinfo(t, hd, "missing"); if (ld) tj3Free(ld); }
+    fn[strlen(fn) - 8] = 0;
+    unlink(fn);
+    free(img);
+    tj3Set(hd, TJPARAM_PRECISION, 8);
+  } else if (!strcmp(n, "ljdec")) {   /* ljdec slot mode colors dither : raw libjpeg API decompression with colour quantisation */
+    lj_decompress(t, k, a[0] % NS, a[1], a[2], a[3]);
+  } else if (!strcmp(n, "ljcomp")) {  /* ljcomp slot w h q opt seed : raw libjpeg API compression into a slot */
+    lj_compress(t, k, a[0] % NS, a[1], a[2], a[3], a[4], (uint32_t)a[5]);
   } else if (!strcmp(n, "geterr")) {
     int H = a[0] % NH;
     if (t->h[H]) errinfo(t, t->h[H], "geterr"); else logf_(t, "%d geterr skip", k);
@@ -355,7 +638,7 @@ static void run_op(thr_t *t, int k)
       own(t, k, "thread-local error string of a failing helper", tj3GetErrorStr(NULL), "tj3YUVBufSize");
       break; }
     }
-  } else if (!strcmp(n, "legacy")) {  /* legacy w h pf subsamp qual seed : 2.x API with flags=0 (no env write) */
+  } else if (!strcmp(n, "legacy") && strcmp(n, "icc") && strcmp(n, "planes") && strcmp(n, "ljdec") && strcmp(n, "ljcomp")) {  /* legacy w h pf subsamp qual seed : 2.x API with flags=0 (no env write) */
     int w = a[0], h = a[1], pf = a[2], ss = a[3], q = a[4];
     tjhandle c = tjInitCompress();
     unsigned char *img = (unsigned char *)mkimage(8, w, h, tjPixelSize[pf], (uint32_t)a[5]);
@@ -400,6 +683,7 @@ static void *worker(void *arg)
   for (int i = 0; i < NH; i++) if (t->h[i]) { tj3Destroy(t->h[i]); t->h[i] = NULL; }
   for (int i = 0; i < NS; i++) free_slot(t, i);
   if (t->pre) { tj3Destroy(t->pre); t->pre = NULL; }
+  __atomic_add_fetch(&done_count, 1, __ATOMIC_SEQ_CST);
   return NULL;
 }
 
@@ -425,7 +709,7 @@ int main(int argc, char **argv)
     memset(o, 0, sizeof(*o));
     strncpy(o->name, name, sizeof(o->name) - 1);
     char *p = line + off;
-    while (o->na < 12) {
+    while (o->na < 14) {
       char *e; long v = strtol(p, &e, 10);
       if (e == p) break;
       o->a[o->na++] = (int)v; p = e;
@@ -439,13 +723,17 @@ int main(int argc, char **argv)
   char *clog[MAXT]; size_t clen[MAXT]; int cown[MAXT]; char cmsg[MAXT][300];
   pthread_t th[MAXT];
   pthread_barrier_init(&bar, NULL, nthreads);
+  watch_load();
   for (int i = 0; i < nthreads; i++) {
     T[i].tid = i; reset_state(&T[i]); T[i].ownfail = 0;
     int pt = pre_type(&T[i]);
     T[i].pre = pt >= 0 ? tj3Init(pt) : NULL;
   }
   for (int i = 0; i < nthreads; i++) pthread_create(&th[i], NULL, worker, &T[i]);
+  if (nwatch && getenv("C15_WATCH_POLL"))     /* un-instrumented build only: sample while the workers run */
+    while (__atomic_load_n(&done_count, __ATOMIC_SEQ_CST) < nthreads) { watch_check("while-threads-run"); usleep(50); }
   for (int i = 0; i < nthreads; i++) pthread_join(th[i], NULL);
+  int wbad = watch_check("after-concurrent-phase");
   for (int i = 0; i < nthreads; i++) {
     clog[i] = T[i].log ? T[i].log : strdup(""); clen[i] = T[i].loglen; cown[i] = T[i].ownfail;
     memcpy(cmsg[i], T[i].ownmsg, sizeof(cmsg[i]));
@@ -461,7 +749,8 @@ int main(int argc, char **argv)
     pthread_join(th[i], NULL);
   }
   nthreads = saved;
-  int bad = 0;
+  wbad |= watch_check("after-solo-phase");
+  int bad = wbad;
   for (int i = 0; i < nthreads; i++) {
     const char *sl = T[i].log ? T[i].log : "";
     if (cown[i]) { printf("T%d OWN %s\n", i, cmsg[i]); bad = 1; }
